@@ -377,6 +377,39 @@ def r5_local_before_global(ctx, rule="C13.R5"):
                         seq.append(("body" if f is fn else "closure", nm, b))
         if not any(x[1] == "global_names" for x in seq) or fn.name in ("global_names", "names"):
             continue
+        if not any(x[1] == "names" for x in seq) and fn.kind != "closure":
+            # a helper that consults the module level only (`the SHARED entry of the global table, if any`): it is
+            # the fallback half; where it is called decides - every caller looks at the current scope first
+            callers = [g for g in _names_methods(prog) if g.id != fn.id and any(
+                (t.get("res") or mir.callee_of(t)) == fn.id for h in [g] + prog.closures_of(g) for _b, t in h.body.calls())]
+            if callers:
+                n += 1
+                bad = []
+                for g in callers:
+                    gseq = []
+                    for h in [g] + prog.closures_of(g):
+                        for b in h.body.rpo():
+                            t = h.body.term(b)
+                            if t["k"] == "call":
+                                nm = mir.callee_path(t).split("::")[-1]
+                                if nm == "names" and "Names" in mir.callee_path(t):
+                                    gseq.append(("body" if h is g else "closure", "names", b))
+                                elif (t.get("res") or mir.callee_of(t)) == fn.id:
+                                    gseq.append(("body" if h is g else "closure", "helper", b))
+                    body_first = [x for x in gseq if x[0] == "body"]
+                    ok_g = bool(body_first) and body_first[0][1] == "names"
+                    if ok_g:
+                        hb = [x for x in body_first if x[1] == "helper"]
+                        lb = [x for x in body_first if x[1] == "names"]
+                        if hb:
+                            ok_g = g.body.dominates(lb[0][2], hb[0][2])
+                    if not ok_g:
+                        bad.append(g.name)
+                ctx.decide(not bad, rule, "%s:%s" % (rule, fn.name), fn.loc,
+                           "a fallback helper: every caller looks at the current scope first",
+                           "%s (which consults the module level only) is called by %s before the current scope was looked at: a "
+                           "local CONST/variable no longer shadows a global one of the same name" % (fn.name, bad))
+                continue
         n += 1
         first_body = [x for x in seq if x[0] == "body"]
         ok = bool(first_body) and first_body[0][1] == "names"
